@@ -12,14 +12,16 @@ from vlib.harness import Harness
 from vlib.symx import Violation, assume, native, pick, reached
 
 # node indices (rank order: new bases are always lower-ranked nodes => acyclic)
-OBJ, I0, I1, I2, I3, IM, IK0, IK1, D0, D1, P = range(11)
+OBJ, I0, I1, I2, I3, IM, IK0, IK1, D0, D1, P, IX, I4 = range(13)
 NAMES = ['implementedBy(object)', 'I0', 'I1', 'I2', 'I3', 'implementedBy(M)', 'implementedBy(K0)',
-         'implementedBy(K1)', 'D0', 'D1', 'providedBy(ob)']
+         'implementedBy(K1)', 'D0', 'D1', 'providedBy(ob)', 'IX', 'I4']
 NN = len(NAMES)
-IFACES = (I0, I1, I2, I3)
+IFACES = (I0, I1, I2, I3, IX, I4)
 
 # candidate bases per re-basable node
 CAND = {
+    I0: [IX],
+    I4: [I1, I0, I2],          # initially (I1, I0): a base that another base already extends
     I1: [I0],
     I2: [I0, I1],
     I3: [I0, I1, I2],
@@ -31,6 +33,8 @@ CAND = {
     P: [I2, IK1, D1, I0],
 }
 CAND_SMALL = {
+    I0: [IX],
+    I1: [I0],
     I2: [I0, I1],
     I3: [I1, I2],
     IM: [OBJ, I2],
@@ -68,6 +72,8 @@ class Graph:
             i1 = InterfaceClass('I1', (i0,), __module__=mod)
             i2 = InterfaceClass('I2', (i0,), __module__=mod)
             i3 = InterfaceClass('I3', (i1, i2), __module__=mod)
+            ix = InterfaceClass('IX', (Interface,), __module__=mod)
+            i4 = InterfaceClass('I4', (i1, i0), __module__=mod)
             M = type('M', (object,), {})
             K0 = implementer(i1)(type('K0', (object,), {}))
             K1 = type('K1', (K0,), {})
@@ -79,6 +85,7 @@ class Graph:
             self.keep = (M, K0, K1, ob)
             self.ob = ob
             nodes[I0], nodes[I1], nodes[I2], nodes[I3] = i0, i1, i2, i3
+            nodes[IX], nodes[I4] = ix, i4
             nodes[IM], nodes[IK0], nodes[IK1] = implementedBy(M), implementedBy(K0), implementedBy(K1)
             nodes[D0], nodes[D1], nodes[P] = d0, d1, providedBy(ob)
             self.nodes = nodes
@@ -89,7 +96,7 @@ class Graph:
         else:
             # a freshly built graph of the given shape: every node gets its final bases exactly once, bottom-up
             for n in IFACES:
-                nodes[n] = InterfaceClass('I%d' % (n - I0), (Interface,), __module__=mod)
+                nodes[n] = InterfaceClass(NAMES[n], (Interface,), __module__=mod)
             for n in (IM, IK0, IK1):
                 nodes[n] = Implements.named('fresh%d' % n)
             for n in (D0, D1, P):
@@ -218,7 +225,7 @@ _ENC = ['zope.interface.interface:Specification.changed', 'zope.interface.interf
         'zope.interface.declarations:Implements.changed', 'zope.interface.ro:ro',
         'zope.interface._zope_interface_coptimizations:SpecificationBase']
 
-_B = ('graph of 11 specifications: implementedBy(object) (fixed), interfaces I0, I1(I0), I2(I0), I3(I1,I2), class declarations of M '
+_B = ('graph of 13 specifications: implementedBy(object) (fixed), interfaces IX, I0, I1(I0), I2(I0), I3(I1,I2), I4(I1,I0) (a base that another base already extends), class declarations of M '
       '(declares nothing), K0 (@implementer(I1)), K1(K0), plain declarations D0=(I2), D1=(I1, D0), providedBy(ob) for ob=K1() with '
       'directlyProvides(ob, I2); ')
 
@@ -227,8 +234,8 @@ HARNESSES = [
             tiers=dict(quick=dict(budget_s=150, parts=16, params=dict(L=2)),
                        thorough=dict(budget_s=3000, parts=16, params=dict(L=3, small=True))),
             encoded=_ENC,
-            bounds=_B + 'quick: every history of <=2 assignments from 110 (each of 9 nodes := ordered subset, size <=2, of up to 4 lower-ranked '
-                        'candidates); thorough: every history of <=3 assignments from a 36-op alphabet; all 121 ordered pairs queried after every step',
+            bounds=_B + 'quick: every history of <=2 assignments from 122 (each of 11 nodes := ordered subset, size <=2, of up to 4 lower-ranked '
+                        'candidates); thorough: every history of <=3 assignments from a 36-op alphabet; all 169 ordered pairs queried after every step',
             outside='cyclic __bases__; more than 2 bases per assignment; graphs beyond the 11 nodes; histories longer than the bound',
             oracle='reachability over the harness\'s mirror of the current __bases__ (+ root); sequence equality of __sro__/__iro__ with a freshly '
                    'built graph of the same shape'),
